@@ -17,6 +17,7 @@ from .brokers import (
     redis_source_rules,
     redis_txn_rules,
     terminal_callers_rule,
+    redis_queue_names,
 )
 
 SUMMARY = ("Token conservation per operation over all CFG paths, cancellation atomicity at await granularity (MULTI/EXEC on Redis), "
@@ -43,6 +44,11 @@ def run(ctx: Ctx) -> None:
     redis_source_rules(ctx)
     redis_op_fields(ctx, "R-C01-TRANSFER")
     redis_orphan(ctx)
+    redis_queue_names(ctx, "R-C01-TRANSFER")
+    from .C12 import gate
+
+    with ctx.as_rule("R-C01-TRANSFER"):
+        gate(ctx)  # dead-lettering on delivery happens only for NORMAL consumers: a nack issued by a DELAYED / DEAD reader has no dead-letter target and destroys the message
     rabbit_rules(ctx)
     own_rules(ctx)
     terminal_callers_rule(ctx, "R-OWN")
